@@ -105,6 +105,14 @@ def replay_levinson(chk, st, cplx):
                     chk.violation('LEVINSON:nesting:%s:%s' % (mode, ename),
                                   'order-q solution on a longer r differs from the order-q solution (%s)' % bad,
                                   dict(case, order=k))
+        # the order-0 solution (the initial state of the recursion in Levinson.tla): no coefficient, P = r[0]
+        if st['status'] == 'pd' and k >= 1:
+            ok, res = call_guard(LEVINSON, arr, order=np_int(0, getattr(chk, '_c10_flag', 0)))
+            r0 = M.cq_complex(r[0]).real
+            bad = ('raises %r' % (res,)) if not ok else (None if (len(res[0]) == 0 and len(res[2]) == 0 and abs(complex(res[1]) - r0) <= 1e-12 * abs(r0)) else
+                                                        'returns %d coefficients, P=%r (r[0]=%r)' % (len(res[0]), res[1], r0))
+            if bad:
+                chk.violation('LEVINSON:order-zero:%s' % mode, 'LEVINSON(r, order=0) for r=%s: %s' % (case['r'], bad), dict(case, order=0))
     chk.replayed += 1
     chk.count('levinson-' + mode, 'replayed')
     chk.count('levinson-' + mode, 'status-' + st['status'])
@@ -151,6 +159,8 @@ def run(chk):
     C10_obs.run(chk)
     from .. import session
     session.run_for(chk, 'C10')      # Session.tla: results do not depend on earlier calls
+    from .. import units
+    units.run_for(chk, 'C10')      # Units.tla: the unit the data are expressed in is not part of the data
 
 
 def replay_case(chk, sig, case):
